@@ -179,6 +179,3 @@ def replay(run, rec):
     bench = harness.Bench(w["fam"], VARIANTS, d)
     bench.skeleton = "replay"
     judge(run, bench, w.get("input", "cut@0"), w["raw"], family_flags(w["fam"]))
-    run.distinct.update(["replay-a", "replay-b"])
-    for k in REQUIRED:
-        run.counters[k] += 1
